@@ -7,6 +7,7 @@ import (
 	"crypto/sha256"
 	"encoding/hex"
 	"fmt"
+	"math"
 	"math/big"
 	"net/http"
 	"os"
@@ -15,10 +16,13 @@ import (
 	"sync"
 
 	"github.com/elnosh/gonuts/mint"
+	"github.com/elnosh/gonuts/mint/lightning"
 	"github.com/elnosh/gonuts/mint/storage"
 	"github.com/elnosh/gonuts/mint/storage/sqlite"
 
+	"verif/harness/clnfacade"
 	"verif/harness/dbproxy"
+	"verif/harness/lndfacade"
 	"verif/harness/lnmodel"
 	"verif/harness/ref"
 )
@@ -36,6 +40,11 @@ type Config struct {
 	FeeMode    lnmodel.FeeMode
 	FeeConst   uint64
 	WithServer bool
+	// ViaCLN: the mint talks to the Lightning model through the repository's Core Lightning adapter and an
+	// imitation of the node's REST interface (harness/clnfacade) instead of using the model as its backend directly
+	ViaCLN bool
+	// ViaLND: likewise through the repository's LND adapter on imitations of LND's rpc clients (harness/lndfacade)
+	ViaLND bool
 	// SeedIdx selects one of a small pool of fixed mint seeds (reference keys are cached per seed).
 	SeedIdx int
 	// CaseSeed makes client secrets / LN preimages a function of the case.
@@ -53,14 +62,16 @@ type KS struct {
 }
 
 type World struct {
-	T    T
-	Cfg  Config
-	Dir  string
-	Net  *lnmodel.Network
-	LN   *lnmodel.Backend
-	Mint *mint.Mint
-	Srv  *mint.MintServer
-	DB   *dbproxy.MintProxy
+	T   T
+	Cfg Config
+	Dir string
+	Net *lnmodel.Network
+	LN  *lnmodel.Backend
+	// Facade is set for ViaCLN worlds
+	Facade *clnfacade.Facade
+	Mint   *mint.Mint
+	Srv    *mint.MintServer
+	DB     *dbproxy.MintProxy
 
 	MintSeed []byte
 	Keysets  map[string]*KS
@@ -156,12 +167,26 @@ func NewOn(t T, cfg Config, net *lnmodel.Network) *World {
 }
 
 func (w *World) start(rotate bool, fee uint) error {
+	var client lightning.Client = w.LN
+	if w.Cfg.ViaCLN {
+		if w.Facade == nil {
+			w.Facade = clnfacade.New(w.LN)
+		}
+		c, err := w.Facade.Client()
+		if err != nil {
+			return err
+		}
+		client = c
+	}
+	if w.Cfg.ViaLND {
+		client = lndfacade.Client(w.LN)
+	}
 	mc := mint.Config{
 		RotateKeyset:    rotate,
 		MintPath:        w.Dir,
 		InputFeePpk:     fee,
 		Limits:          w.Cfg.Limits,
-		LightningClient: w.LN,
+		LightningClient: client,
 		EnableMPP:       w.Cfg.MPP,
 		LogLevel:        mint.Disable,
 		MintInfo:        mint.MintInfo{Name: "verif mint"},
@@ -180,6 +205,15 @@ func (w *World) start(rotate bool, fee uint) error {
 		w.Srv = mint.SetupMintServer(m, mint.ServerConfig{Port: 0})
 	}
 	return w.RefreshKeysets()
+}
+
+// ReserveFor is the fee reserve the mint will quote for a melt of amount sat: the Lightning model's policy, or - with
+// one of the repository's adapters in between - the adapter's own (1 % rounded up).
+func (w *World) ReserveFor(amount uint64) uint64 {
+	if w.Cfg.ViaCLN || w.Cfg.ViaLND {
+		return uint64(math.Ceil(float64(amount) * lightning.FeePercent))
+	}
+	return w.LN.FeeFor(amount)
 }
 
 // Handler returns the in-process HTTP handler (WithServer only).
@@ -244,6 +278,9 @@ func (w *World) Close() {
 	}
 	w.closed = true
 	w.Shutdown()
+	if w.Facade != nil {
+		w.Facade.Close()
+	}
 	os.RemoveAll(w.Dir)
 }
 
